@@ -161,9 +161,9 @@ class Shim:
 
         def hooked_open(file, mode='r', buffering=-1, encoding=None, errors=None, newline=None, closefd=True, opener=None):
             path = shim.tracked(file)
-            if path is None or opener is not None or not closefd:
+            if path is None or not closefd:
                 return orig['open'](file, mode, buffering, encoding, errors, newline, closefd, opener)
-            return shim._open(path, file, mode, buffering, encoding, errors, newline)
+            return shim._open(path, file, mode, buffering, encoding, errors, newline, opener)
 
         builtins.open = hooked_open
         io.open = hooked_open
@@ -298,7 +298,7 @@ class Shim:
         Shim._installed = None
 
     # ------------------------------------------------------------------ files
-    def _open(self, path, file, mode, buffering, encoding, errors, newline):
+    def _open(self, path, file, mode, buffering, encoding, errors, newline, opener=None):
         binary = 'b' in mode
         rawmode = mode.replace('b', '').replace('t', '')
         writing = any(c in rawmode for c in 'wax+')
@@ -306,7 +306,15 @@ class Shim:
             event = self.emit(Event('open-w' if writing else 'open-r', path, detail=mode))
         else:
             event = None
-        raw = HookedFileIO(file, rawmode)
+        # (an `opener` usually goes through os.open, which is interposed as well: mute it so that the open is one event)
+        if opener is not None:
+            self.tls.busy = True
+            try:
+                raw = HookedFileIO(file, rawmode, opener=opener)
+            finally:
+                self.tls.busy = False
+        else:
+            raw = HookedFileIO(file, rawmode)
         raw._shim = self  # pylint: disable=protected-access
         raw._vpath = path  # pylint: disable=protected-access
         raw._writing = writing  # pylint: disable=protected-access
